@@ -899,6 +899,13 @@ func RunPhases(p *Program, req *Req, phases []int) *Result {
 		if m.engine == "Off" {
 			continue
 		}
+		if phase == 2 && req.RawBody != "" {
+			// the body is parsed when the request-body phase is reached (whether or not an allow lets its rules run)
+			for _, pair := range strings.Split(req.RawBody, "&") {
+				k, v, _ := strings.Cut(pair, "=")
+				m.cols["ARGS_POST"] = append(m.cols["ARGS_POST"], KV{k, v})
+			}
+		}
 		m.runPhase(phase)
 	}
 	return m.finish()
